@@ -17,6 +17,8 @@ def gen(ctx):
     yield dict(kind="sp", hist=[[[4, 0, 0], [0, 5, 0], [0, 0, 9]]], closed=0, grains=[], T=4, dtype="int32")
     yield dict(kind="sp", hist=[[[7, 3, 9, 4]]], closed=0, grains=[], T=5, dtype="int32")
     yield dict(kind="sp", hist=[[[7], [3], [12]]], closed=0, grains=[], T=5, dtype="int32")
+    for T in (70, 131):
+        yield dict(kind="sp", hist=[[[rng.randint(0, 9) for _ in range(4)] for _ in range(3)]], closed=0, grains=[[1, 1, T - 2], [2, 3, 65]], T=T, dtype="int32")
     for _ in range(ctx.n(80, 800)):
         # the drive-and-relax loop: ONE Sandpile object, grains added between successive evolutions
         R, C = rng.randint(3, 6), rng.randint(3, 6)
